@@ -69,6 +69,7 @@ def raised : Resp → Option Exc
 inductive CErr where
   | resourceNotFound          -- `client_abc.ResourceNotFoundError` (promised by the interface)
   | runtimeError              -- `RuntimeError`
+  | valueError                -- `ValueError` (`InvalidParameterError`: a trial outside the search space)
   | failedPrecondition | notFound | alreadyExists | other
   deriving DecidableEq, Repr, Inhabited
 
@@ -109,8 +110,9 @@ inductive Call where
   | getSuggestions (count : Nat) (alg : AlgOutcome)
   /-- `Study.request(TrialSuggestion)` -/
   | request (params : Nat) (md : MD)
-  /-- `Study.add_trial(trial)`; `final` given = a completed trial -/
-  | addTrial (params : Nat) (final : Option Meas)
+  /-- `Study.add_trial(trial)`; `final` given = a completed trial; `inSpace` = the parameters lie in the
+      study's search space -/
+  | addTrial (params : Nat) (final : Option Meas) (inSpace : Bool)
   /-- `Study.get_trial(id)` (existence check, returns a handle) -/
   | getTrial (id : Nat)
   /-- `Trial.materialize()` -/
@@ -251,13 +253,14 @@ def clientExec (cfg : Cfg) (fuel : Nat) (h : Handle) (c : Call) (db : DB) : Out 
     rpc1 cfg db (.createTrial h.owner h.sid (protoTrial params .requested none md)) <| passing fun
       | .trial t => .handle t.id
       | _ => .exc .other
-  | .addTrial params final =>
+  | .addTrial params final inSpace =>
     -- `sc = get_study_config(); sc.search_space.assert_contains(trial.parameters); add_trial(trial)`
     let r1 := Req.getStudy h.owner h.sid
     let x := step cfg db r1
     match raised x.1 with
     | some e => { obs := .exc e.cls, reqs := [r1], db := x.2 }
     | none =>
+      if !inSpace then { obs := .exc .valueError, reqs := [r1], db := x.2 } else
       let r2 := Req.createTrial h.owner h.sid
         (protoTrial params (match final with | some _ => .succeeded | none => .active) final [])
       let y := step cfg x.2 r2
